@@ -1,4 +1,5 @@
 """per-property configuration of ./check"""
+import stages
 
 F32_TEXT = 'Rust f32 Display/FromStr (assumed: parse(show w) = w, show w matches the weight grammar, for w in Dom)'
 
@@ -17,6 +18,86 @@ PROPS = {
                 'distinct = distinct request lines (every request is a different input).',
         'trusted': ['hand-written Lean semantics of match/if-chains/slicing in Model/Card.lean (validated by the exhaustive correspondence)'],
         'assumptions': ['reversed range endpoints are outside C13 (see DESIGN §5)'],
+    },
+    'C01': {
+        'gen_items': ['Rank', 'Suit', 'DpRef', 'Tables', 'MadeHand'],
+        'lean_modules': ['EspadaVerif.Props.C01Compare'],
+        'namespaces': ['EspadaVerif.C01', 'EspadaVerif.Lemmas', 'EspadaVerif.Kernel'],
+        'theorems': ['EspadaVerif.C01.C01_eval', 'EspadaVerif.C01.C01_order', 'EspadaVerif.C01.C01_compare',
+                     'EspadaVerif.C01.C01_index_range', 'EspadaVerif.C01.C01_best_is_strongest',
+                     'EspadaVerif.Kernel.rainbow_all', 'EspadaVerif.Kernel.flush_all',
+                     'EspadaVerif.Lemmas.cls_lt_iff', 'EspadaVerif.Lemmas.cls_eq_iff', 'EspadaVerif.Lemmas.cls_onto'],
+        'profiles': ['debug'],
+        'gen_release': True,
+        'parallel': 4,
+        'rule': 'one hand per reachable table slot (49,205 rank-count vectors + 4,719 flush masks) in a seeded order, hands stratified over the '
+                'nine categories, flush completing at card 5/6/7, all 5040 orders of selected hands, uniform random hands; oracle column = '
+                'Spec.best (best of the 21 five-card hands under the rule-book numbering). distinct = distinct request lines.',
+        'trusted': ['hand-written Lean semantics of find_flush_suit / hash_for_flush / hash_for_rainbow / dp_ref (Model/Eval.lean), tied by the correspondence; '
+                    'their shape is pinned by the translator (a reshaped function is reported as a broken tie)'],
+        'assumptions': [],
+    },
+    'C02': {
+        'gen_items': ['Rank', 'Suit', 'Ranges', 'DpRef', 'Tables', 'MadeHand', 'Pair', 'Iter'],
+        'lean_modules': ['EspadaVerif.Props.C02'],
+        'namespaces': ['EspadaVerif.C02'],
+        'theorems': ['EspadaVerif.C02.C02_refines', 'EspadaVerif.C02.C02_payload'],
+        'profiles': ['debug'],
+        'gen_release': True,
+        'parallel': 12,
+        'uses_order': True,
+        'rule': 'iterator requests (flop, per-player entry lists in map-iteration order as observed by the harness, scope): small tables with complete '
+                'showdown lists, overlapping ranges, combos holding flop cards, 2-3 player tables, range sizes 255/256/257/390/1326, zero players, '
+                'an empty range; the oracle column is the list comprehension Spec.deals (count + order-insensitive-within-position digest of all showdowns).',
+        'trusted': ['hand-written Lean model of the iterator (Model/Iter.lean), tied by the correspondence',
+                    'HashSet<Card>/HashMap behave as finite sets/maps; map iteration order is an input',
+                    'binary32 product: Lean Float32 and Rust f32 both use the hardware multiply (compared bit for bit)'],
+        'assumptions': ['the probability product is stated over an abstract weight type with unit and product'],
+    },
+    'C04': {
+        'gen_items': ['Rank', 'Suit', 'Ranges', 'DpRef', 'Tables', 'MadeHand', 'Pair', 'Iter'],
+        'lean_modules': ['EspadaVerif.Props.C04'],
+        'namespaces': ['EspadaVerif.C04'],
+        'theorems': ['EspadaVerif.C04.C04_scoped', 'EspadaVerif.C04.C04_chain', 'EspadaVerif.C04.C04_exhausted', 'EspadaVerif.C04.C04_rescope'],
+        'profiles': ['debug'],
+        'gen_release': True,
+        'parallel': 12,
+        'uses_order': True,
+        'rule': 'scoped iterator requests: seeded (from, to) pairs incl. row ends, terminal, from = to, re-scoping, three further next() calls after '
+                'exhaustion; chains of consecutive scopes; every row start/end as from and as to; oracle = Spec.deals restricted to the scope.',
+        'trusted': ['as C02'],
+        'assumptions': [],
+    },
+    'C08': {
+        'gen_items': ['Rank', 'Suit', 'Ranges', 'DpRef', 'Tables', 'MadeHand', 'Pair', 'Iter'],
+        'lean_modules': ['EspadaVerif.Props.C08'],
+        'namespaces': ['EspadaVerif.C08'],
+        'theorems': ['EspadaVerif.C08.C08_total', 'EspadaVerif.C08.C08_empty'],
+        'profiles': ['debug', 'release'],
+        'gen_release': True,
+        'parallel': 12,
+        'uses_order': True,
+        'extra_stages': [stages.c08_children],
+        'rule': 'worst cases for termination/stack/overflow: range sizes 0,1,2,255,256,257,512,1326; empty range beside a non-empty one; longest runs of '
+                'consecutive blocked deals (a one-combo player holding the first deck card beside wide ranges); everything blocked; three mutually '
+                'blocking players. Each request is drained in-process (debug and release) and in child processes on a 2 MiB thread stack (debug and release).',
+        'trusted': ['as C02', 'native stack consumption and allocator behaviour are runtime facts: witnessed by the child-process runs on the generated worst cases only'],
+        'assumptions': ['partial: the theorem bounds loop iterations and shows no panic arm is reachable; the 2 MiB claim is observed, not proved'],
+    },
+    'C03': {
+        'gen_items': ['Rank', 'Suit', 'DpRef', 'Tables', 'MadeHand', 'Pair'],
+        'lean_modules': ['EspadaVerif.Props.C03'],
+        'namespaces': ['EspadaVerif.C03'],
+        'theorems': ['EspadaVerif.C03.C03_none_iff', 'EspadaVerif.C03.C03_some', 'EspadaVerif.C03.C03_winner_iff', 'EspadaVerif.C03.eval_own_seven'],
+        'profiles': ['debug'],
+        'gen_release': True,
+        'parallel': 4,
+        'rule': 'seeded tables of 1..10 players with distinct cards; tie-heavy boards (straight / flush / quads / full house / two pair on board); '
+                'board collisions at every player position; players sharing hole cards (model vs implementation only); one hand against every '
+                'single opponent on seeded boards. distinct = distinct request lines.',
+        'trusted': ['hand-written Lean model of Showdown::new / winner_len (Model/Showdown.lean), tied by the correspondence',
+                    'HashSet<usize> behaves as a finite set (insert / clear / contains)'],
+        'assumptions': ['winner_len: stated for at most 255 players (u8 counter)'],
     },
     'C07': {
         'gen_items': ['Rank', 'Suit', 'DpRef', 'Tables', 'MadeHand'],
